@@ -45,6 +45,8 @@ package utils
 //@   ensures[fresh-for-ttl] result == nil ==> expirationTimeNano >= old(now()) + ttlDuration && expirationTimeNano <= now() + ttlDuration
 //@   ensures[others-untouched] seq: old(cache.cache) != nil ==> cache.cache == old(cache.cache) && forall(k, K, k != key ==> (in(k, cache.cache) <==> old(in(k, cache.cache))) && cache.cache[k] == old(cache.cache[k]))
 //@   ensures[size-gate] seq: result == nil && cache.calculateCacheSize && cache.calculateSizeFunc != nil ==> old(cache.currentCacheSize) + itemSize <= cache.maxCacheSize && cache.currentCacheSize == old(cache.currentCacheSize) + itemSize
+//@   ensures[no-size-no-error] !cache.calculateCacheSize || cache.calculateSizeFunc == nil ==> result == nil
+//@   ensures[size-unchanged] seq: result != nil || !cache.calculateCacheSize ==> cache.currentCacheSize == old(cache.currentCacheSize)
 //@   ensures[refused-unchanged] seq: result != nil ==> old(cache.cache) != nil ==> forall(k, K, (in(k, cache.cache) <==> old(in(k, cache.cache))) && cache.cache[k] == old(cache.cache[k]))
 
 //@ func (*MemoryCache).Del
